@@ -253,3 +253,18 @@ Proof.
              (seq 0 n) 0%nat j).
   rewrite seq_nth by exact Hj. reflexivity.
 Qed.
+
+(* the right-hand sides: the supplied bound where there is one, otherwise the criterion's own maximum (if maximised)
+   or minimum (if minimised) - 0 is a bound like any other *)
+Theorem default_b_spec objs tm user k :
+  length objs = length tm -> length tm = length user -> (k < length objs)%nat ->
+  nth k (default_b objs tm user) 0 =
+  match nth k user None with
+  | Some v => v
+  | None => if nth k objs true then lmax (nth k tm []) else lmin (nth k tm [])
+  end.
+Proof.
+  intros L1 L2 Hk. unfold default_b.
+  apply (map3_nth (fun (o : bool) r u => match u with Some v => v | None => if o then lmax r else lmin r end)
+                  objs tm user k true [] None 0 Hk L1 L2).
+Qed.
